@@ -22,6 +22,8 @@ def main():
     if param.get("cube") and hasattr(mod, "CUBE"):
         mod.CUBE = tuple(param["cube"])
     out = {"id": spec.get("id")}
+    if hasattr(mod, "make_confirm"):
+        mod.CONFIRM = mod.make_confirm(cx, spec["fn"])
     try:
         res = mod.QUERIES[spec["fn"]](cx, list(spec.get("excludes") or []))
     except Exception as e:
